@@ -1277,7 +1277,7 @@ func toString(v interface{}) string {
 			// a typed nil pointer whose String method has a value receiver cannot be called
 			return ""
 		}
-		return val.String()
+		return stringerText(val)
 	}
 
 	// A pointer prints as what it points to, never as an address
